@@ -180,7 +180,7 @@ def model_runs(tier):
         return [{"module": "MC_C05", "constants": {"NMax": 4, "Family": '"perm"'}},
                 {"module": "MC_C05", "constants": {"NMax": 3, "Family": '"multi"'}},
                 {"module": "MC_C05", "constants": {"Family": '"map"'}}]
-    return [{"module": "MC_C05", "constants": {"NMax": 6, "Family": '"perm"'}, "heap": "8g"},
+    return [{"module": "MC_C05", "constants": {"NMax": 5, "Family": '"perm"'}, "heap": "8g"},
             {"module": "MC_C05", "constants": {"NMax": 4, "Family": '"multi"'}},
             {"module": "MC_C05", "constants": {"Family": '"map"'}}]
 
